@@ -55,6 +55,9 @@ def plan(tier, seed):
                 continue
             cfgs.append(dict(sched=kind, table=[[c, 1] for c in range(ncls)], rate=8, flows=list(range(ncls)), sizes=[1],
                              N=ncls if ncls < 6 or not quick else 5, gaps=["S"], order=0, static=True))
+    # a second live scheduler of the same kind with other weights / vticks in the same program
+    cfgs.append(dict(sched="WFQ", table=[[0, 1], [1, 2]], rate=8, flows=[0, 1], sizes=[1, 2], N=n, gaps="G3", order=0, twin=1))
+    cfgs.append(dict(sched="VC", table=[[0, 1], [1, 2]], rate=8, flows=[0, 1], sizes=[1, 2], N=n, gaps="G3", order=0, twin=1))
     # every configuration once more with long fixed workloads (state that only breaks after hundreds of packets)
     nlong = explore.add_long(cfgs, 300 if quick else 800)
     ndebug = explore.add_debug_variants(cfgs)      # the same with every element constructed with debug=True
